@@ -12,9 +12,19 @@ META = {
             "in values (the pinned go-text reader drops ':' and skips one-field lines: counter-witnesses proved), rectangularity for all inputs. "
             "Fixed-length with explicit delimiter positions - refuse_or_spell (error iff positions do not increase or a text exceeds its column), round trip "
             "under 'no text contains CR/LF' for every byte-width function with width(' ') = 1, rectangularity for all inputs and positions. "
-            "Covered by correspondence / law checks only (no proof): fixed-length automatic delimiter positions (a heuristic), JSON and JSON Lines, "
-            "the transcoders (UTF-8/UTF-8 BOM/UTF-16/Shift_JIS), and the 'updated file keeps its dialect' clause. "
-            "Models tied to /repo on every run: model-encode = real EncodeView bytes, model-decode = real loader on arbitrary bytes, "
+            "JSON and JSON Lines - model of go-text/json escaping (Escape / EscapeWithHexDigits / EscapeAll / EncodeRune / Unescape incl. surrogate "
+            "pairs and invalid escapes), of Scanner.scanString, of the value <-> structure mapping (ParseValueToStructure / ConvertToValue), of the "
+            "scanner + the grammar of parser.y (recursive descent) and of the table mapping for flat column names; proved: unescape(escape t s) = s for "
+            "all three escape types and ALL code-point strings; the string token is read back unless the Backslash type meets a text ending in a "
+            "backslash (counter-witness proved); the value round trip with its exact image (Integer -> Float text, Datetime -> String, Ternary -> "
+            "Boolean/NULL, NaN/Inf -> NULL); the table round trip on TOKENS for JSON and JSON Lines (distinct flat column names, >= 1 record), "
+            "rectangularity for ALL input texts, no shift; counter-witnesses for the empty table and for the String that is itself JSON text. "
+            "Not proved, covered by correspondence / law checks only: the step characters -> tokens for punctuation, literals and numbers (numbers are "
+            "opaque atoms with a harness-supplied strconv profile), pretty printing, the embedding of JSON-looking strings, nested column paths (a.b), "
+            "fixed-length automatic delimiter positions (a heuristic), the transcoders (UTF-8/UTF-8 BOM/UTF-16/Shift_JIS), and the 'updated file "
+            "keeps its dialect' clause. "
+            "Models tied to /repo on every run: model-encode = real EncodeView bytes (CSV/TSV/LTSV/fixed/JSON compact+pretty/JSONL), model-decode = "
+            "real loader on arbitrary bytes (incl. generated and mutated JSON texts), model escape/unescape = go-text functions on code-point strings, "
             "plus the write-then-read law on the real code alone for all six formats",
     "design_ref": "DESIGN.md section 5, C02",
     "note": "trusted: Lean kernel (axioms propext, Classical.choice, Quot.sound only); harness + driver; golang.org/x/text transcoders and go-text "
@@ -27,6 +37,10 @@ META = {
 def run(run):
     q = run.tier == "quick"
     run.assumptions += [
+        "JSON numbers are opaque atoms: for every number literal the harness supplies what strconv makes of it (ParseFloat then FormatFloat 'f'; "
+        "'!' when ParseFloat fails); the JSON theorems quantify over all such profiles and assume AtomOK (the written decimal text is a fixed point)",
+        "JSON column names are flat (no '.', no backslash): one object member per column; code points U+E002..U+E007 outside strings (goyacc's "
+        "private token numbers) are not modelled",
         "text is modelled after transcoding (List Char): dec(enc s) = s for encodable s is assumed of golang.org/x/text; the harness checks the composed "
         "behaviour for UTF-8, UTF-8 with BOM, UTF-16 (BE/LE, with and without BOM) and Shift_JIS by the write-then-read law",
         "the delimiter is none of '\"', CR, LF (DelimOK); cell texts of Integer/Float/Boolean/Datetime values are what ConvertFieldContents returns",
